@@ -1810,7 +1810,9 @@ PROPS["C06"] = {
 C10_PREFIX = ["val = 5;", "x = y;", "obj = {};", "cls = 1; cls = 2;", "function g() { const t = <Foo>{k()}</Foo>; return t; }", "const q = () => <Bar>{m()}</Bar>;",
               "(<></>);", "(<><i/></>);", "const fr = <Fragment>t</Fragment>;", "import { h, Fragment as _Fragment, createVNode as _createVNode } from 'vue';",
               "import { Fragment } from 'vue';", "(<Comp>{f()}</Comp>);", "(<div v-show={x}/>);", "(<Comp on={{a: 1}}/>);", "list = []; fn1 = null;",
-              "for (const i of list) { cls = i; }", "class Z { m() { val = 1; } }", "const w = (val = 2, 3);", "(<Unk v-model={val}/>);", "function h3(val) { val = 1; }"]
+              "for (const i of list) { cls = i; }", "class Z { m() { val = 1; } }", "const w = (val = 2, 3);", "(<Unk v-model={val}/>);", "function h3(val) { val = 1; }",
+              # an assignment whose remembered target is CONSUMED by another component before the statement (two statements each)
+              "val = 5; (<Comp>{f()}</Comp>);", "cls = 1; (<Foo>{x}</Foo>);", "obj = {}; const q0 = <Bar>{list}</Bar>;", "fn1 = null; out.push(<Unk>{y}</Unk>);"]
 C10_STMTS = ["const s = <Comp>{val}</Comp>;", "const s = <Comp>{f()}</Comp>;", "const s = <_Fragment>t</_Fragment>;", "const s = <Fragment>{x}</Fragment>;", "const s = <><Comp>{obj}</Comp></>;",
              "const s = <div class={cls} {...obj}>t {x}</div>;", "const s = <Unk v-slots={slotsObj}>{list}</Unk>;", "const s = () => <Foo>{fn1}</Foo>;", "const s = <KeepAlive><Comp>{x}</Comp></KeepAlive>;",
              "const s = <Comp on={{click: fn1}} v-model={val}>{val}</Comp>;", "function s() { return <Comp>{val}</Comp>; }", "const s = <Foo>{cls}</Foo>;"]
@@ -1832,6 +1834,15 @@ C10_DYN_STMTS = ["const s = <Comp>{val}</Comp>;", "const s = <Comp>x {cls}</Comp
                  "const s = <><Bar>{cls}</Bar></>;", "function s() { return <Foo>t{val}</Foo>; }", "const s = () => <Comp>{list}</Comp>;", "const s = <Comp v-slots={{ n: () => 1 }}>{val}{obj}</Comp>;"]
 
 
+C10_TWO_STMTS = {"cls = 1; cls = 2;", "list = []; fn1 = null;", "val = 5; (<Comp>{f()}</Comp>);", "cls = 1; (<Foo>{x}</Foo>);",
+                 "obj = {}; const q0 = <Bar>{list}</Bar>;", "fn1 = null; out.push(<Unk>{y}</Unk>);"}
+
+
+def c10_nstmts(pre):
+    """top-level statements a prefix is written as"""
+    return 2 if pre in C10_TWO_STMTS else 1
+
+
 def c10_cases(tier, seed):
     r = gen.Rng(seed)
     run, pairs = [], []
@@ -1851,7 +1862,7 @@ def c10_cases(tier, seed):
                     n += 1
                     k = len([x for x in pre.split(";") if x.strip()]) if not pre.startswith(("function", "class", "for", "import")) else 1
                     # count top-level statements of the prefix by parsing convention: each prefix is written as k statements
-                    k = {"cls = 1; cls = 2;": 2, "list = []; fn1 = null;": 2}.get(pre, 1)
+                    k = c10_nstmts(pre)
                     b = {"id": "ctx%d" % n, "src": gen.PRELUDE + pre + "\n" + stmt + "\n" + suf + "\n", "tsx": False, "opts": o}
                     run.append(b)
                     pairs.append({"id": "c10_%d" % n, "mode": "c10:%d:%d" % (npre, npre + k), "a": a["id"], "b": b["id"]})
@@ -1920,7 +1931,7 @@ def c10_cases(tier, seed):
         a = {"id": "ra%d" % i, "src": gen.PRELUDE + stmt + "\n", "tsx": False, "opts": o}
         b = {"id": "rb%d" % i, "src": gen.PRELUDE + "\n".join(pre) + "\n" + stmt + "\n" + "\n".join(suf) + "\n", "tsx": False, "opts": o}
         run += [a, b]
-        pairs.append({"id": "r%d" % i, "mode": "c10:%d:%d" % (npre, npre + len(pre)), "a": a["id"], "b": b["id"]})
+        pairs.append({"id": "r%d" % i, "mode": "c10:%d:%d" % (npre, npre + sum(c10_nstmts(p) for p in pre)), "a": a["id"], "b": b["id"]})
     return [], run, {"rule": "pair oracle on the real code: 12 JSX statements (sole identifier/call children, Fragment/_Fragment tags, fragments, spreads, v-slots, arrows, KeepAlive, transformOn + v-model, function bodies) transformed ALONE and between 20 prefixes x 2 suffixes; 15 tags of different kinds sharing a name or last segment (div / motion.div / a.b.div, input / Form.input, Comp / ui.Comp, ...) x 2 shapes, each alone vs. before and after each other tag; (assignments to same-named variables, function/arrow bodies with other JSX needing temporaries, fragment uses, user imports of Fragment/createVNode/h from 'vue', directives, transformOn, loops, classes, shadowing parameters) + %d generated statements between random distractors; the lowered statement must be identical up to renaming of generated identifiers; + HISTORIES of length > 1: 12 statements x (4 module-level JSX needing a temporary x 8 nested functions / arrows / blocks / methods / loops with and without temporaries of their own) x 6 arrangements before and after the statement [sampled 1/2 in quick]; python-side clause: a module-level temporary of the statement is mentioned by no other statement (as when alone); + state that outlives a JSX tree: 12 statements whose slot flags depend on locally bound identifier children (direct, nested, beside text, spread, unbound, in fragments / arrows / functions, beside v-slots) x 12 other trees that are marked dynamic (identifier / spread children at the root or nested, element / component / fragment / custom-element roots, in statements, functions, arrows, classes, attribute values) x 4 arrangements x 3 option sets with the hints on and off [sampled in quick]" % budget(tier, 500, 12000),
                      "pairs": pairs}
 
